@@ -76,12 +76,12 @@ def check_c15(tier, seed):
                 nm = n[len("after-"):]
                 k_of.append(step_names.index(nm) + 1 if nm in step_names else None)
         priors_all = F.prior_states(tree)
-        prior_names = ["absent", "older", "identical-other-mode"] if tier == "quick" else list(priors_all)
+        prior_names = ["absent", "older", "identical-other-mode", "older-symlinked"] if tier == "quick" else list(priors_all)
         skill = os.path.join(sb.cwd, ".claude", "skills", "kessoku-di")
 
         def prepare(pn):
             sb.reset()
-            F.lay_down(skill, priors_all[pn])
+            F.lay_down(skill, priors_all[pn], symlink=pn in F.SYMLINKED)
             return {r: priors_all[pn].get(r) for r in files}
 
         def judge(kind, pn, point_desc, snap, old, fi_cur, model_line, crashed, envx, j=0):
@@ -130,7 +130,7 @@ def check_c15(tier, seed):
                 old = prepare(pn)
                 envx = {"KESSOKU_VERIF_CRASH": str(i)}
                 rc, out, err = F.run_cli(cli, sb, ["claude-code"], envx); runs += 1
-                snap = F.snapshot(sb.cwd)
+                snap = F.follow_links(sb.cwd, F.snapshot(sb.cwd))
                 fi_cur = file_of[i]
                 ml = None
                 if k_of[i] is not None and fi_cur < len(files):
@@ -145,7 +145,7 @@ def check_c15(tier, seed):
                                     "observed": {f: F.classify_dest(snap.get(os.path.join(".claude", "skills", "kessoku-di", f)), old[f], tree[f]) for f in files}})
                 # a later successful run completes the installation
                 rc2, out2, err2 = F.run_cli(cli, sb, ["claude-code"]); runs += 1
-                snap2 = F.snapshot(sb.cwd)
+                snap2 = F.follow_links(sb.cwd, F.snapshot(sb.cwd))
                 bad = [f for f in files if F.classify_dest(snap2.get(os.path.join(".claude", "skills", "kessoku-di", f)), None, tree[f]) != "new"]
                 if rc2 != 0 or bad:
                     R.violation("re-run after crash at point %d (%s) over prior '%s' does not complete the installation: rc=%d, not new: %s" % (i, n, pn, rc2, bad),
@@ -157,7 +157,7 @@ def check_c15(tier, seed):
                     old = prepare(pn)
                     envx = {"KESSOKU_VERIF_PARTIAL": "%d:%d" % (fi_cur, j)}
                     rc, out, err = F.run_cli(cli, sb, ["claude-code"], envx); runs += 1
-                    snap = F.snapshot(sb.cwd)
+                    snap = F.follow_links(sb.cwd, F.snapshot(sb.cwd))
                     kw = step_names.index("write") if "write" in step_names else None
                     ml = model_states(["crashstate %s %d true" % (ex(f), kw)])[0] if kw is not None else None
                     if rc != -9:
@@ -174,7 +174,7 @@ def check_c15(tier, seed):
                 old = prepare(pn)
                 envx = {"KESSOKU_VERIF_FAIL": str(i)}
                 rc, out, err = F.run_cli(cli, sb, ["claude-code"], envx); runs += 1
-                snap = F.snapshot(sb.cwd)
+                snap = F.follow_links(sb.cwd, F.snapshot(sb.cwd))
                 ml = model_states(["failstate %s %d false" % (ex(files[fi_cur]), k)])[0] if k is not None else None
                 if rc == 0 or "Error" not in err:
                     R.violation("injected failure after point %d (%s) is not reported (rc=%d, stderr=%r)" % (i, n, rc, err[-200:]),
